@@ -77,3 +77,20 @@ let handle (toks : string list) : (string * string * string) option =
       Some (m, s, op ^ ":depth" ^ string_of_int depth ^ (if ab then ":abort" else ":ok") ^ (if nab > 0 then ":trap" else ""))
     end
   | _ -> None
+
+(* scope_exit histories *)
+let handle_sx (toks : string list) : (string * string * string) option =
+  match toks with
+  | "sx" :: ops ->
+    let parsed = List.map (fun tok -> match String.split_on_char ':' tok with
+        | ["m"; j] -> SxMove (ni (int_of_string j)) | ["r"; j] -> SxRelease (ni (int_of_string j))
+        | ["d"; j] -> SxDestroy (ni (int_of_string j)) | _ -> failwith "bad sx op") ops in
+    let s = sx_run parsed in
+    let n = List.length s.objs in
+    let s2 = sx_run (parsed @ List.init n (fun j -> SxDestroy (ni j))) in
+    let released = int_of_nat s2.cancelled > 0 in
+    let m = "fired=" ^ sn s.fired ^ " final=" ^ sn s2.fired in
+    (* what C19 demands: exactly once in total unless released while armed, never twice *)
+    let sp = "fired=" ^ sn s.fired ^ " final=" ^ (if released then "0" else "1") in
+    Some (m, sp, "sx:" ^ (if released then "released" else "fires") ^ ":objs" ^ string_of_int n)
+  | _ -> None
